@@ -60,7 +60,15 @@ MANIFEST = {
             "the tabled grounder itself is tied extensionally per generated program (not proved for all programs), except on "
             "ground programs without recursion: there it is modelled (ProbLogModel/GroundAcyclic.lean, exact equality of the "
             "ground program with the real engine's) and proved correct against Sem.wfm for all programs, schedules and call "
-            "histories (C01Ground.C01_ground_acyclic_correct).",
+            "histories (C01Ground.C01_ground_acyclic_correct). On function-free programs WITH variables (no recursion) the "
+            "grounder is modelled too (ProbLogModel/GroundFO.lean, exact equality of ground program, names per query instance "
+            "and both DefineCache tables); proved there: the structural table invariant (C01GroundFO.*_partial); the "
+            "correctness statement CorrectFO (reported instances have the key of their truth value in Sem.wfm of the "
+            "Herbrand instantiation, unreported instances are false) is CHECKED per generated program by executing the Lean "
+            "definitions (Drivers.GroundFOCheck) and PROVED for the model in partial-correctness form for every schedule and "
+            "call history (C01GroundFOFull.C01_groundFO_correct_wfm_partial: whenever the model returns; decidable hypotheses "
+            "SpecOK - arities, constants and variables in range, range restriction, block layout of names, acyclic "
+            "instantiation - decided per generated program by the driver; termination of the model is not proved).",
     "note": "Trusted: Lean kernel + standard axioms; the serialiser of first-order programs (spine.fo_sexp; the Herbrand instantiation itself is Lean's SemFO.ground, proved in C01FO, and cross-checked against the former Python instantiation on every program); Sem as the "
             "meaning of 'distribution semantics'. The engine (engine_stack.py/eval_nodes.py) is not modelled: agreement is "
             "established on the generated programs only. Floats vs exact rationals at 1e-9.",
@@ -212,6 +220,9 @@ def run(ctx):
     # C01_ground_acyclic_correct (upstream of C01_pipeline_downstream)
     import ground_util
     gerr = ground_util.guarded(ctx, "all", 200, 6000)
+    import groundfo_util           # the same on programs WITH variables (first-order model, exact correspondence)
+    gerr2 = groundfo_util.guarded(ctx, "all", 150, 5000)
+    gerr = gerr or gerr2
     if ground_util.is_ground_replay(ctx):
         return ground_util.after(ctx.finish("proof"), gerr)     # (the replay belongs to the phase above)
     rc = _run_rest(ctx)
@@ -232,7 +243,7 @@ def _run_rest(ctx):
             p["stmts"] = [tuple(s) for s in p["stmts"]]
     else:
         for i in range(nprog):
-            progs.append(spine.gen_program(rng, disjunction=True))
+            progs.append(spine.gen_program(rng, disjunction=True, numeric=True))
     # pinned regression corpus: programs inside the structural region of known finding F1 that the tree answered
     # correctly when the corpus was built (tools/gen_c01_corpus.py); a failure here is never matched by the finding
     import json
